@@ -848,7 +848,8 @@ struct LinearProblem
     Mat A, B;
 };
 
-LinearProblem linear_problem(Setup& s, const Case& c, const std::string& m)
+// variant (LPP only): 0 = W = A + A^T, 1 = W = max(A, A^T); the statement does not fix the symmetrisation (see C09)
+LinearProblem linear_problem(Setup& s, const Case& c, const std::string& m, int variant = 0)
 {
     LinearProblem lp;
     int N = s.N;
@@ -870,10 +871,20 @@ LinearProblem linear_problem(Setup& s, const Case& c, const std::string& m)
     }
     else
     {
+        // graph Laplacian and degree matrix written out from the statement (heat weights on neighbour pairs, made symmetric)
         Neighbors nb = neighbours_of(s, c, false);
-        Laplacian lap = compute_laplacian(s.idx.begin(), s.idx.end(), nb, cd, c.d("width", 1.0));
-        M = dense(lap.first);
-        Bp = Mat(lap.second);
+        double width = c.d("width", 1.0);
+        Mat Aw = Mat::Zero(N, N);
+        for (int i = 0; i < N; ++i)
+            for (int j : nb[i])
+            {
+                double d = s.cb->dval(i, j);
+                Aw(i, j) = std::exp(-d * d / width);
+            }
+        Mat W = variant == 0 ? Mat(Aw + Aw.transpose()) : Mat(Aw.cwiseMax(Aw.transpose()));
+        Vec deg = W.rowwise().sum();
+        Bp = deg.asDiagonal();
+        M = Bp - W;
     }
     lp.A = s.X * M * s.X.transpose();
     lp.B = s.X * Bp * s.X.transpose();
@@ -911,6 +922,29 @@ void run_lin(const Case& c, Result& r)
     {
         r.violation(m + ":nonfinite", "non-finite projection matrix or embedding");
         return;
+    }
+    if (m == "lpp")
+    {
+        // take whichever symmetrisation the returned columns fit better, then judge against that one
+        LinearProblem alt = linear_problem(s, c, m, 1);
+        auto worst = [&](const LinearProblem& q) {
+            double w = 0, a = std::max(1e-300, q.A.cwiseAbs().maxCoeff()), b = std::max(1e-300, q.B.cwiseAbs().maxCoeff());
+            for (int j = 0; j < s.td; ++j)
+            {
+                Vec pj = P.col(j);
+                double t = pj.dot(q.A * pj) / pj.dot(q.B * pj);
+                w = std::max(w, (q.A * pj - t * q.B * pj).norm() / ((a + std::fabs(t) * b) * std::max(1e-300, pj.norm())));
+            }
+            return w;
+        };
+        if (alt.A.allFinite() && alt.B.allFinite() && worst(alt) < worst(lp))
+        {
+            lp = alt;
+            sp = gen_eig_asc(lp.A, lp.B);
+            r.str["lpp_symmetrisation"] = "max";
+        }
+        else
+            r.str["lpp_symmetrisation"] = "sum";
     }
     double nA = std::max(1e-300, lp.A.cwiseAbs().maxCoeff()), nB = std::max(1e-300, lp.B.cwiseAbs().maxCoeff());
     double lmax = std::max(1e-300, sp.vals.cwiseAbs().maxCoeff());
